@@ -38,7 +38,7 @@ type UqEntry struct {
 
 // AbsState is the projection of the real stores into the variables of Posmint.tla.
 type AbsState struct {
-	Bal       []int64    `json:"bal"` // ids 1..N users, N+1 fee, N+2 pool, N+3 pos, N+4 dao
+	Bal       []int64    `json:"bal"` // ids 1..N users, N+1 fee, N+2 pool, N+3 pos, N+4 dao, N+5 every other address of the usual length together, N+6 every address of another length
 	Supply    int64      `json:"supply"`
 	Val       []AbsVal   `json:"val"`
 	Pidx      [][2]int64 `json:"pidx"` // <<power, id>> sorted
@@ -47,13 +47,14 @@ type AbsState struct {
 	Uq        []UqEntry  `json:"uq"`
 	Sinfo     []AbsInfo  `json:"sinfo"`
 	Bits      [][]int64  `json:"bits"`     // indexes stored as true
-	AwardQ    []int64    `json:"awardQ"`   // per id 1..N+4; 0 = absent or zero
+	AwardQ    []int64    `json:"awardQ"`   // per id 1..N+6; 0 = absent or zero
 	BurnQ     []string   `json:"burnQ"`    // Dec strings, "" = absent
 	Proposer  int        `json:"proposer"` // id, 0 = unknown address, -1 = unset
 	Pkrel     []int      `json:"pkrel"`
 	MaxVals   int64      `json:"maxVals"`   // pos/MaxValidators as stored
 	MinStake  int64      `json:"minStake"`  // pos/StakeMinimum as stored
 	DenomAlt  bool       `json:"denomAlt"`  // pos/StakeDenom is no longer the default denomination
+	PosmAcc   string     `json:"posmAcc"`   // what sits at the pos module account's address: none / plain / module
 	Anomalies []string   `json:"anomalies"` // things the abstraction cannot represent (unknown addresses, foreign denoms …)
 }
 
@@ -81,8 +82,8 @@ func (a *App) Project() (s AbsState) {
 			s.Anomalies = append(s.Anomalies, fmt.Sprintf("projection panicked: %v", r))
 		}
 	}()
-	s = AbsState{Bal: make([]int64, n+4), Val: make([]AbsVal, n), Prev: make([]int64, n), Sinfo: make([]AbsInfo, n),
-		Bits: make([][]int64, n), AwardQ: make([]int64, n+4), BurnQ: make([]string, n), Pidx: [][2]int64{}, Uq: []UqEntry{}, Pkrel: []int{}, Anomalies: []string{}}
+	s = AbsState{Bal: make([]int64, n+6), Val: make([]AbsVal, n), Prev: make([]int64, n), Sinfo: make([]AbsInfo, n),
+		Bits: make([][]int64, n), AwardQ: make([]int64, n+6), BurnQ: make([]string, n), Pidx: [][2]int64{}, Uq: []UqEntry{}, Pkrel: []int{}, Anomalies: []string{}}
 	for i := range s.Prev {
 		s.Prev[i] = -1
 		s.Bits[i] = []int64{}
@@ -94,8 +95,14 @@ func (a *App) Project() (s AbsState) {
 		id := a.ID(acc.GetAddress())
 		x, ok := amt(acc.GetCoins())
 		if id == 0 {
-			if !acc.GetCoins().IsZero() {
-				anom("account %s holds %s", acc.GetAddress(), acc.GetCoins())
+			// an address outside the named ones: all of them together are the specification's OUT account
+			if !ok {
+				anom("account %s holds foreign denom %s", acc.GetAddress(), acc.GetCoins())
+			}
+			if len(acc.GetAddress()) == sdk.AddrLen {
+				s.Bal[n+4] += x
+			} else {
+				s.Bal[n+5] += x
 			}
 			return false
 		}
@@ -220,7 +227,11 @@ func (a *App) Project() (s AbsState) {
 		var x sdk.Int
 		amino.MustUnmarshalBinaryBare(v, &x)
 		if id == 0 {
-			anom("award queued for unknown address %X: %s", k[1:], x)
+			if len(k[1:]) == sdk.AddrLen {
+				s.AwardQ[n+4] += x.Int64()
+			} else {
+				s.AwardQ[n+5] += x.Int64()
+			}
 			return
 		}
 		s.AwardQ[id-1] = x.Int64()
@@ -238,6 +249,13 @@ func (a *App) Project() (s AbsState) {
 	s.MaxVals = int64(a.PK.MaxValidators(ctx))
 	s.MinStake = a.PK.MinimumStake(ctx)
 	s.DenomAlt = a.PK.StakeDenom(ctx) != sdk.DefaultStakeDenom
+	s.PosmAcc = "none"
+	if acc := a.AK.GetAccount(ctx, a.ModAddr[postypes.ModuleName]); acc != nil {
+		s.PosmAcc = "plain"
+		if _, ok := acc.(authexported.ModuleAccountI); ok {
+			s.PosmAcc = "module"
+		}
+	}
 	bz := st.Get(postypes.ProposerKey)
 	if bz == nil {
 		s.Proposer = -1
